@@ -31,6 +31,7 @@ struct Stmt {
   std::string target;               // GOTO / IF label
   std::vector<Stmt> body;           // LOOP / WHILE body; ITE then-branch
   std::vector<Stmt> body2;          // ITE else-branch
+  int share = 0;                    // > 0: statements with equal share id are textually identical and live in one file included repeatedly
 };
 
 struct Routine {
